@@ -213,6 +213,9 @@ class extract_visitor(NodeVisitor):
             self.visit(df)
 
         if not PY2:
+            for df in node.args.kw_defaults:
+                df and self.visit(df)
+
             for a in node.args.args:
                 a.annotation and self.visit(a.annotation)
             for kw in node.args.kwonlyargs:
@@ -237,6 +240,9 @@ class extract_visitor(NodeVisitor):
             self.visit(d)
 
         if not PY2:
+            for d in node.args.kw_defaults:
+                d and self.visit(d)
+
             for a in node.args.args:
                 a.annotation and self.visit(a.annotation)
             for kw in node.args.kwonlyargs:
